@@ -35,7 +35,7 @@ PROPS = {
     ),
     "C02": dict(
         title="Launchpad-token solvency",
-        lean=["LP.Props.C02", "LP.Props.C01reachV2", "LP.Props.C01reachV1", "LP.Props.C01reachG1", "LP.Props.C13reachV2", "LP.Props.C14reachG"],
+        lean=["LP.Props.C02", "LP.Props.C01reachV2", "LP.Props.C01reachV1", "LP.Props.C01reachG1", "LP.Props.C13reachV2", "LP.Props.C14reachG", "LP.Props.C14feeLp"],
         profiles=[("life", ALL_VARIANTS), ("reserve", GUAR)],
         R={"st": [({"deposit"}, None), ({"claim", "claimPayment"}, FUNDS_MSGS)],
            "xf.lp": {"claim", "claimPayment"}, "lock": ANY},
@@ -127,7 +127,7 @@ PROPS = {
     ),
     "C14": dict(
         title="NFT draw and fees",
-        lean=["LP.Props.C14", "LP.Props.C14reach", "LP.Props.C14reachG"],
+        lean=["LP.Props.C14", "LP.Props.C14reach", "LP.Props.C14reachG", "LP.Props.C14feeLp"],
         profiles=[("life", ["nft", "nftGuar"]), ("chunks", ["nft", "nftGuar"]), ("deploy", ["nft", "nftGuar"])],
         R={"st": ({"deploy", "confirmNft", "selectNft", "secondary", "setNftCost"}, None), "sft": ANY,
            "xf.fee": {"claim", "claimPayment", "blacklist"}, "ret": {"selectNft", "secondary"}},
@@ -149,7 +149,7 @@ PROPS = {
     ),
     "C17": dict(
         title="Sale terms frozen",
-        lean=["LP.Props.C17", "LP.Props.C13reachV2"],
+        lean=["LP.Props.C17", "LP.Props.C13reachV2", "LP.Props.C14feeLp"],
         profiles=[("timeline", ALL_VARIANTS), ("life", ALL_VARIANTS), ("deploy", ALL_VARIANTS)],
         R={"st": ({"deploy", "setTicketPrice", "setPerTicket", "setNftCost", "setSchedule1", "setSchedule2"}, None)},
         D={"price": ANY, "per": ANY, "cost": ANY, "sched": ANY, "views": ANY},
